@@ -24,7 +24,7 @@ ASSUMPTIONS = ["loss detection time for EOF / reset / refused / rejected handsha
 TASK_LIMIT_S = {"quick": 280, "thorough": 3400}
 
 ABNORMAL = ["refused", "hs404", "eof", "reset", "silent", "eof-midframe", "eof-midmessage"]
-TERMINAL = ["server-close", "close-in-on_message", "close-in-opener"]
+TERMINAL = ["server-close", "close-in-on_message", "close-in-opener", "server-close-nobody"]
 ALL_CB = ["on_open", "on_message", "on_error", "on_close", "on_ping", "on_pong", "on_data"]
 
 
@@ -168,6 +168,9 @@ def peer_factory(kind, idx, ping):
         return lambda: tnet.ServerPeer(script=[(1.0, "data", msg)], on_ping=None)
     if kind == "server-close":
         return lambda: tnet.ServerPeer(script=[(1.0, "data", msg), (2.0, "data", R.encode(R.CLOSE, b"\x03\xe8"))], on_ping=on_ping)
+    if kind == "server-close-nobody":
+        # a close frame without status code (RFC 6455 5.5.1 allows an empty body): it ends the run like any other
+        return lambda: tnet.ServerPeer(script=[(1.0, "data", msg), (2.0, "data", R.encode(R.CLOSE, b""))], on_ping=on_ping)
     if kind in ("close-in-on_message", "stays-up"):
         return lambda: tnet.ServerPeer(script=[(1.0, "data", msg)], on_ping=on_ping, on_close="reply+eof", close_latency=0.25)
     if kind == "close-in-opener":
